@@ -308,3 +308,15 @@ def c06_method_selection(ver: int, method: int, rt: int) -> str:
         return R('request-sent-although-server-did-not-select-no-authentication', 'server said %d %d, client sent %r', ver, method, sent)
     reached()
     return ''
+
+
+NUMERIC_LOOKING = ['10.1', '1.2.3', '7', '0x7f.1', '01.2.3.4', '1.2.3.4.5', '256.1.1.1', '1.2.3.4x']
+
+
+@cond(quick=dict(parts=[{'rt': r} for r in range(3)], budget=100))
+def c06_numeric_names(port: int, rt: int, idx: int) -> str:
+    """targets made of digits and dots that are *not* IPv4 literals (short forms, hex parts, leading zeros, five parts, out of range):
+    they are host names and go out as DOMAINNAME with their exact text (RESOLVE_PTR: refused)"""
+    assume(0 <= port <= 65535)
+    idx = api.pick(idx, 0, len(NUMERIC_LOOKING) - 1)
+    return _check(TYPES[rt], NUMERIC_LOOKING[idx], port, 'name', True)
